@@ -70,7 +70,7 @@ func TestDev(t *testing.T) {
 			fmt.Printf("-- %s: %d reach=%v err=%q\n   %v\n   %q\n", m, a.Status, a.Reach, a.Err, a.Header, clip(string(a.Body), 900))
 		}
 		for j, m := range []string{"file", "pipe"} {
-			for _, d := range compare(as[0], as[j+1]) {
+			for _, d := range compare(as[0], as[j+1], bodyNote(c.Req.Body)) {
 				fmt.Printf("   DIFF %s: %s\n", m, d.sig)
 			}
 		}
